@@ -89,6 +89,10 @@ class Pre:
         self.backend_cls = backend_cls
         self.limit, self.group_by, self.is_filtered = limit, group_by, is_filtered
 
+    def nn(self, k):
+        """a new, arbitrary column name chosen by the user in this step"""
+        return SymName(k)
+
     # ---- Cache ---------------------------------------------------------------------
     def cols_dict(self):
         # cols is iterated in an order unrelated to the visible order
@@ -123,6 +127,37 @@ class Pre:
     def token(self, i):
         return ("src", self.tag, i)
 
+    # ---- SQL backend state -------------------------------------------------------------
+    def sql_names(self):
+        # visible columns carry their current name as label; hidden ones an arbitrary (unconstrained) label
+        return [self.phys[i] if i in self.vis else self.cname[i] for i in range(self.skel.w)]
+
+    def sql_state(self, where=(), having=(), order_by=(), limit=None, offset=None, group_by=()):
+        names = self.sql_names()
+        tbl = sqlmodel.FromModel("base", self.tag)
+        cols = {}
+        sqa_expr = {}
+        for i in range(self.skel.w):
+            c = sqlmodel.SX("column", f"{self.tag}_c{i}", type_=H.sqlite_backend.SqliteImpl.sqa_type(self.dtypes[i]))
+            c.table = tbl
+            c.token = self.token(i)
+            cols[f"{self.tag}_c{i}"] = c
+            sqa_expr[self.uuids[i]] = sqlmodel.label(names[i], c)
+        tbl.columns = sqlmodel._ColColl(cols)
+        tbl.c = tbl.columns
+        cd = self.cols_dict()
+        q = H.sql_backend.Query(
+            select=[self.uuids[i] for i in self.vis],
+            partition_by=[cd[self.uuids[i]] for i in self.grp],
+            group_by=list(group_by),
+            where=list(where),
+            having=list(having),
+            order_by=list(order_by),
+            limit=limit,
+            offset=offset,
+        )
+        return tbl, q, sqa_expr
+
 
 @contextlib.contextmanager
 def polars_step(pres):
@@ -146,6 +181,28 @@ def polars_step(pres):
         finally:
             H.polars_backend.compile_ast = real
             plmodel.STRUCT_MODE = saved
+
+
+@contextlib.contextmanager
+def sql_step(pres, state_kw=None):
+    """like polars_step for SqlImpl.compile_ast (a classmethod: the recursive call goes through the class)"""
+    SqlImpl = H.sql_backend.SqlImpl
+    orig = SqlImpl.__dict__["compile_ast"]
+    real_fn = orig.__func__
+    by_node = {id(p.node): p for p in pres}
+
+    def stub(cls, nd, needed_cols):
+        p = by_node.get(id(nd))
+        if p is not None:
+            return p.sql_state(**(state_kw or {}).get(p.tag, {}))
+        return real_fn(cls, nd, needed_cols)
+
+    with H.patched():
+        SqlImpl.compile_ast = classmethod(stub)
+        try:
+            yield lambda nd, needed: real_fn(H.sqlite_backend.SqliteImpl, nd, needed)
+        finally:
+            SqlImpl.compile_ast = orig
 
 
 def seq_eq(xs, ys):
